@@ -35,7 +35,7 @@ def everything_is_wrapped_by_one_bucket(ctx):
               and isinstance(n.targets[0].slice, ast.Constant) and n.targets[0].slice.value == 'bandwidth_limiter']
         ok = len(st) == 1 and norm(st[0].value) == 'self._bandwidth_limiter' and q.guards_imply(q.guards(st[0]), 'self._bandwidth_limiter') and len(q.guards(st[0])) == 1
         dict_name = norm(st[0].targets[0].value) if st else None
-        passed = any(r.kind == 'package' and any(t.name == '_submit_transfer' for t in r.targets) and any(isinstance(a, ast.Name) and a.id == dict_name for a in c.args)
+        passed = any(r.kind == 'package' and any(t.name == '_submit_transfer' for t in r.targets) and any(isinstance(a, ast.Name) and a.id == dict_name for a in list(c.args) + [k.value for k in c.keywords])
                      for c, r in q.calls_in(ctx, m))
         ctx.ob(m, f"{mname}(): extra_main_kwargs['bandwidth_limiter'] = self._bandwidth_limiter", ok and passed, f'{mname}s would not be throttled')
     # limiter -> stream uses the shared bucket
@@ -69,7 +69,7 @@ def everything_is_wrapped_by_one_bucket(ctx):
                     ctx.ob(m, c, ok, 'the body handed to the chunk reader must be the _wrap_fileobj() result on every path')
     ctx.need(n >= 3, f'only {n} body construction sites found')
     us = ctx.func('upload.UploadSubmissionTask._submit')
-    ok = any(isinstance(c.func, ast.Call) and any(isinstance(a, ast.Name) and a.id == 'bandwidth_limiter' for a in c.args) for c in own_calls(us.node))
+    ok = any(isinstance(c.func, ast.Call) and any(isinstance(a, ast.Name) and a.id == 'bandwidth_limiter' for a in list(c.args) + [k.value for k in c.keywords]) for c in own_calls(us.node))
     ctx.ob(us, 'the input manager receives bandwidth_limiter', ok, 'the limiter never reaches the upload bodies')
     # download side
     t = ctx.func('download.GetObjectTask._main')
@@ -267,11 +267,17 @@ def scheduler_accounting_is_paired(ctx):
         ok = len(sl) == 1 and len(sl[0].args) == 1 and norm(sl[0].args[0]) == f'{h.name}.retry_time' and sl[0]._parent in h.body
         ctx.ob(f, f'sleep({h.name}.retry_time) before re-consuming', ok,
                'a shorter sleep followed by the retry releases the scheduled request early: the limit is exceeded in proportion to the number of waiting streams')
-    rb = ctx.func('bandwidth.LeakyBucket._raise_request_exceeded_exception')
+    # on the fully expanded consume() (helpers inlined, whichever way they are cut)
+    x = ctx.expanded()
+    rb = x.func('bandwidth.LeakyBucket.consume')
     cs = [c for c in own_calls(rb.node) if (dotted(c.func) or '').endswith('schedule_consumption')]
-    ok = len(cs) == 1 and isinstance(cs[0]._parent, ast.Assign) and any(isinstance(n, ast.Raise) and norm(kwarg(n.exc, 'retry_time')) == norm(cs[0]._parent.targets[0]) for n in own_nodes(rb.node) if isinstance(n.exc if isinstance(n, ast.Raise) else None, ast.Call))
-    ok2 = len(cs) == 1 and len(cs[0].args) == 3 and (q.ntext(rb, cs[0].args[2]) or '').replace(' ', '') in ('amt/float(self._max_rate)', 'amt/self._max_rate')
-    ctx.ob(rb, 'retry_time of the exception = the wait returned by the scheduler; share = amt / max_rate', ok and ok2, 'the advised wait must be the scheduled one and a request\'s share its size at the maximum rate')
+    raises = [n for n in own_nodes(rb.node) if isinstance(n, ast.Raise) and isinstance(n.exc, ast.Call) and 'RequestExceededException' in norm(n.exc.func)]
+    wait = q.resolve_local(rb, cs[0]._parent.targets[0]) if len(cs) == 1 and isinstance(cs[0]._parent, ast.Assign) else (cs[0] if len(cs) == 1 else None)
+    ok = len(cs) == 1 and len(raises) == 1 and q.resolve_local(rb, q.argn(raises[0].exc, 'retry_time', 1)) is cs[0]
+    share = q.argn(cs[0], 'time_to_consume', 2) if len(cs) == 1 else None
+    ok2 = share is not None and (q.ntext(rb, share) or '').replace(' ', '') in ('amt/float(self._max_rate)', 'amt/self._max_rate')
+    ctx.ob(rb.qualname, 'retry_time of the exception = the wait returned by the scheduler; share = amt / max_rate', ok and ok2,
+           'the advised wait must be the scheduled one and a request\'s share its size at the maximum rate', node=rb.node)
 
 
 @rule('C13.f', ['C13'], floor=2)
